@@ -7,16 +7,33 @@ component targets); `SaModel/Props/C17.lean` assembles them by structural recurs
 namespace SaModel.Props.C17
 open SaModel SaModel.Read SaModel.Spec
 
-/-- reads of target `t` at slot `i` see only what `reachEq · · i` fixes -/
+/-- reads of target `t` at slot `i` see only what `touchEq t · · i` fixes -/
 def AgreeP (t : Target) : Prop :=
-  ∀ (a a' : Arr) (i : Nat), reachEq a a' i = true → readAs Fixes.all t a i = readAs Fixes.all t a' i
+  ∀ (a a' : Arr) (i : Nat), touchEq t a a' i = true → readAs Fixes.all t a i = readAs Fixes.all t a' i
+
+/-- the target the payload of a variant of kind `k` is read with -/
+def vkTarget : VKind → Target
+  | .unit => .unit
+  | .newtype t => t
+  | .tuple ts => .tuple ts
+  | .struct tfs => .struct tfs
 
 def KAgree (k : VKind) : Prop :=
-  ∀ (c c' : Arr) (off : Nat), reachEq c c' off = true →
+  ∀ (c c' : Arr) (off : Nat), touchEq (vkTarget k) c c' off = true →
     readKind Fixes.all k (some (c, off)) = readKind Fixes.all k (some (c', off))
 
-theorem agreeP_any : AgreeP .any := fun a a' i h => by unfold readAs; exact readAny_agree h
-theorem agreeP_ignored : AgreeP .ignored := fun a a' i h => by unfold readAs; rw [readAny_agree h]
+/-- a target without `newtype` / `Option` layers that is not `any` / `IgnoredAny` -/
+theorem touchEq_plain {t : Target} (hp : peelTarget t = (t, false)) (ha : isAnyLike t = false) (a a' : Arr) (i : Nat) :
+    touchEq t a a' i = touchEqW false t a a' i := by
+  unfold touchEq optOf
+  rw [hp]
+  simp only [ha, Bool.or_self]
+
+theorem agreeP_any : AgreeP .any := fun a a' i h => by
+  unfold readAs; exact readAny_agree (p := .any) rfl (by rw [← touchEq_any]; exact h)
+theorem agreeP_ignored : AgreeP .ignored := fun a a' i h => by
+  have h' : touchEqW true .ignored a a' i = true := h
+  unfold readAs; rw [readAny_agree (p := .ignored) rfl h']
 theorem agreeP_unit : AgreeP .unit := fun a a' i h => by unfold readAs; rw [scalar_agree _ h]
 theorem agreeP_unitStruct : AgreeP .unitStruct := fun a a' i h => by unfold readAs; rw [scalar_agree _ h]
 theorem agreeP_bool : AgreeP .bool := fun a a' i h => by unfold readAs; rw [scalar_agree _ h]
@@ -27,77 +44,116 @@ theorem agreeP_char : AgreeP .char := fun a a' i h => by unfold readAs; rw [scal
 theorem agreeP_string : AgreeP .string := fun a a' i h => by unfold readAs; rw [scalar_agree _ h]
 theorem agreeP_str : AgreeP .str := fun a a' i h => by unfold readAs; rw [scalar_agree _ h]
 
+/-! ### list-like columns: the head and the element loop -/
+
+theorem list_head {o : Bool} {p : Target} {l l' : Bool} {v v' : Option Bits} {offs offs' : List Int} {fm fm' : FieldMeta}
+    {el el' : Arr} {i : Nat} (ho : o = false) (hrl : readsList p = true)
+    (h : touchEqW o p (.list l v offs fm el) (.list l' v' offs' fm' el') i = true) :
+    listRange Fixes.all offs i = listRange Fixes.all offs' i := by
+  obtain ⟨_, _, _, _, _, he, hl, _, hc⟩ := touchEqW_list h
+  cases he
+  subst ho
+  exact listRange_congr hl (fun hi => ⟨(hc hi (fun h => nomatch h) hrl).1, (hc hi (fun h => nomatch h) hrl).2.1⟩)
+
+theorem list_loop {α} {o : Bool} {p et : Target} {l l' : Bool} {v v' : Option Bits} {offs offs' : List Int} {fm fm' : FieldMeta}
+    {el el' : Arr} {i s e : Nat} (ho : o = false) (hrl : readsList p = true) (het : elemTarget? p = some et)
+    (h : touchEqW o p (.list l v offs fm el) (.list l' v' offs' fm' el') i = true)
+    (hr : listRange Fixes.all offs i = .ok (s, e)) (f : Arr → Nat → R α)
+    (hf : ∀ j, touchEq et el el' j = true → f el j = f el' j) :
+    readRange (f el) s (e - s) = readRange (f el') s (e - s) := by
+  obtain ⟨_, _, _, _, _, he, hl, _, hc⟩ := touchEqW_list h
+  cases he
+  subst ho
+  obtain ⟨hi, hs, he⟩ := listRange_parts hr
+  exact readRange_elems f ((hc hi (fun h => nomatch h) hrl).2.2 et s e het hs he) hf
+
+theorem fsl_loop {α} {o : Bool} {p et : Target} {len len' : Nat} {v v' : Option Bits} {n : Int} {fm fm' : FieldMeta}
+    {el el' : Arr} {i s e : Nat} (ho : o = false) (het : fslElemTarget? p = some et)
+    (h : touchEqW o p (.fixedSizeList len v n fm el) (.fixedSizeList len' v' n fm' el') i = true)
+    (hr : fslRange Fixes.all len n i = .ok (s, e)) (f : Arr → Nat → R α)
+    (hf : ∀ j, touchEq et el el' j = true → f el j = f el' j) :
+    readRange (f el) s (e - s) = readRange (f el') s (e - s) := by
+  obtain ⟨_, _, _, _, he, hl, _, hc⟩ := touchEqW_fsl h
+  cases he
+  subst ho
+  obtain ⟨hi, hn, hs, he⟩ := fslRange_parts hr
+  have hel := hc hi (fun h => nomatch h) et het hn
+  rw [← hs, ← he] at hel
+  exact readRange_elems f hel hf
+
 theorem agreeP_bytes : AgreeP .bytes := fun a a' i h => by
-  have hkind := reachEq_kind h
+  rw [touchEq_plain (by simp [peelTarget]) rfl] at h
+  have hkind := touchEqW_kind h
   cases a with
   | list l v offs fm el =>
-    obtain ⟨l', v', offs', fm', el', rfl, hv, h0, h1, hel⟩ := reachEq_list h
+    obtain ⟨l', v', offs', fm', el', rfl, _⟩ := touchEqW_list h
     unfold readAs
-    simp only [listRange_congr h0 h1]
+    simp only [list_head rfl rfl h]
   | _ => cases a' <;> simp [kind] at hkind <;> (unfold readAs; simp only [scalar_agree .bytes h])
 
 theorem agreeP_byteBuf : AgreeP .byteBuf := fun a a' i h => by
-  have hkind := reachEq_kind h
+  rw [touchEq_plain (by simp [peelTarget]) rfl] at h
+  have hkind := touchEqW_kind h
   cases a with
   | list l v offs fm el =>
-    obtain ⟨l', v', offs', fm', el', rfl, hv, h0, h1, hel⟩ := reachEq_list h
+    obtain ⟨l', v', offs', fm', el', rfl, _⟩ := touchEqW_list h
+    have hlr := list_head rfl rfl h
     unfold readAs
-    simp only [listRange_congr h0 h1]
+    simp only [hlr]
     cases hr : listRange Fixes.all offs' i with
     | error e => rfl
     | ok r =>
       obtain ⟨s, e⟩ := r
-      have hor := listRange_offRange ((listRange_congr h0 h1).trans hr)
-      simp only [hor] at hel
-      have hrr : readRange (fun j => do accept (.int .u8) (← scalar Fixes.all (.int .u8) el j)) s (e - s) =
-          readRange (fun j => do accept (.int .u8) (← scalar Fixes.all (.int .u8) el' j)) s (e - s) := by
-        refine readRange_congr _ _ (fun k hk => ?_)
-        simp only [scalar_agree (.int .u8) (hel k hk)]
+      have hrr := list_loop rfl rfl rfl h (hlr.trans hr)
+        (fun el j => do accept (.int .u8) (← scalar Fixes.all (.int .u8) el j))
+        (fun j hj => by simp only [scalar_agree (.int .u8) hj])
       simp only [bind, Except.bind] at hrr ⊢
       rw [hrr]
   | _ => cases a' <;> simp [kind] at hkind <;> (unfold readAs; simp only [scalar_agree .byteBuf h])
 
 theorem agreeP_option {t : Target} (hS : AgreeP t) : AgreeP (.option t) := fun a a' i h => by
+  obtain ⟨hs, ht⟩ := touchEq_option_elim h
   unfold readAs
-  rw [isSome_agree h, hS a a' i h]
+  rw [hs]
+  cases hb : isSome Fixes.all a' i with
+  | error e => rfl
+  | ok b =>
+    cases b with
+    | false => rfl
+    | true =>
+      simp only [bind, Except.bind, if_true]
+      rw [hS a a' i (ht (hs.trans hb))]
 
 theorem agreeP_newtype {t : Target} (hS : AgreeP t) : AgreeP (.newtype t) := fun a a' i h => by
   unfold readAs
   exact hS a a' i h
 
 theorem agreeP_seq {t : Target} (hS : AgreeP t) : AgreeP (.seq t) := fun a a' i h => by
-  have hkind := reachEq_kind h
+  rw [touchEq_plain (by simp [peelTarget]) rfl] at h
+  have hkind := touchEqW_kind h
   cases a with
   | list l v offs fm el =>
-    obtain ⟨l', v', offs', fm', el', rfl, hv, h0, h1, hel⟩ := reachEq_list h
+    obtain ⟨l', v', offs', fm', el', rfl, _⟩ := touchEqW_list h
+    have hlr := list_head rfl rfl h
     unfold readAs
-    simp only [listRange_congr h0 h1]
+    simp only [hlr]
     cases hr : listRange Fixes.all offs' i with
     | error e => rfl
     | ok r =>
       obtain ⟨s, e⟩ := r
-      have hor := listRange_offRange ((listRange_congr h0 h1).trans hr)
-      simp only [hor] at hel
-      have hrr : readRange (fun j => readAs Fixes.all t el j) s (e - s) =
-          readRange (fun j => readAs Fixes.all t el' j) s (e - s) :=
-        readRange_congr _ _ (fun k hk => hS el el' (s + k) (hel k hk))
+      have hrr := list_loop rfl rfl rfl h (hlr.trans hr) (fun el j => readAs Fixes.all t el j) (fun j hj => hS el el' j hj)
       simp only [bind, Except.bind] at hrr ⊢
       rw [hrr]
   | fixedSizeList len v n fm el =>
-    obtain ⟨len', v', fm', el', rfl, hl, hv, hel⟩ := reachEq_fsl h
+    obtain ⟨len', v', fm', el', rfl, hl, _⟩ := touchEqW_fsl h
     unfold readAs
     simp only [fslRange_congr hl]
     cases hr : fslRange Fixes.all len' n i with
     | error e => rfl
     | ok r =>
       obtain ⟨s, e⟩ := r
-      obtain ⟨hs, he⟩ := fslRange_parts hr
-      have hrr : readRange (fun j => readAs Fixes.all t el j) s (e - s) =
-          readRange (fun j => readAs Fixes.all t el' j) s (e - s) := by
-        refine readRange_congr _ _ (fun k hk => ?_)
-        have hk' := hel k (by omega)
-        rw [← hs] at hk'
-        exact hS el el' (s + k) hk'
+      have hrr := fsl_loop rfl rfl h ((fslRange_congr hl).trans hr) (fun el j => readAs Fixes.all t el j)
+        (fun j hj => hS el el' j hj)
       simp only [bind, Except.bind] at hrr ⊢
       rw [hrr]
   | _ => cases a' <;> simp [kind] at hkind <;> (unfold readAs; simp only [binaryElems_agree h])
@@ -105,44 +161,58 @@ theorem agreeP_seq {t : Target} (hS : AgreeP t) : AgreeP (.seq t) := fun a a' i 
 /-! ### tuples -/
 
 theorem readTupleFields_agree : ∀ (ts : Targets), AllT AgreeP ts → ∀ (fs fs' : ArrFields) (i : Nat),
-    reachFields fs fs' i = true → readTupleFields Fixes.all ts fs i = readTupleFields Fixes.all ts fs' i
+    tupleEq ts fs fs' i = true → readTupleFields Fixes.all ts fs i = readTupleFields Fixes.all ts fs' i
   | .nil, _, _, _, _, _ => by unfold readTupleFields; rfl
   | .cons t rest, hS, fs, fs', i, h => by
     cases fs with
-    | nil =>
-      unfold reachFields at h
-      split at h
-      · rfl
-      · cases h
+    | nil => cases tupleEq_cons_nil h; rfl
     | cons fm a r =>
-      unfold reachFields at h
-      split at h
-      · rename_i fm' a' r'
-        simp only [Bool.and_eq_true, decide_eq_true_eq] at h
-        unfold readTupleFields
-        simp only [hS.1 a a' i h.1.2, readTupleFields_agree rest hS.2 r r' i h.2]
-      · cases h
+      obtain ⟨fm', a', r', rfl, ha, hr⟩ := tupleEq_cons_cons h
+      unfold readTupleFields
+      simp only [hS.1 a a' i ha, readTupleFields_agree rest hS.2 r r' i hr]
 
-theorem tupleVisit_agree {ts : Targets} (hS : AllT AgreeP ts) {a a' : Arr} {i : Nat} (h : reachEq a a' i = true) :
+/-- the typed struct reads: the row check, then the fields — which the relation covers for rows in range -/
+theorem struct_row {α} {p : Target} {len len' : Nat} {v v' : Option Bits} {fs fs' : ArrFields} {i : Nat}
+    (h : touchEqW false p (.struct len v fs) (.struct len' v' fs') i = true) (f : ArrFields → R α)
+    (hf : structContent p fs fs' i = true → f fs = f fs') :
+    (structItem Fixes.all len i >>= fun _ => f fs) = (structItem Fixes.all len' i >>= fun _ => f fs') := by
+  obtain ⟨_, _, _, he, hl, _, hc⟩ := touchEqW_struct h
+  cases he
+  rw [structItem_congr hl]
+  cases hsi : structItem Fixes.all len' i with
+  | error e => rfl
+  | ok u =>
+    have hi : i < len := by rw [hl]; exact structItem_ok_lt hsi
+    simp only [bind, Except.bind]
+    exact hf (hc hi (fun h => nomatch h))
+
+theorem tupleVisit_agree {ts : Targets} (hS : AllT AgreeP ts) {p : Target}
+    (hp : ∀ fs fs' i, structContent p fs fs' i = tupleEq ts fs fs' i) {a a' : Arr} {i : Nat}
+    (h : touchEqW false p a a' i = true) :
     tupleVisit Fixes.all (fun fs => readTupleFields Fixes.all ts fs i) a i =
       tupleVisit Fixes.all (fun fs => readTupleFields Fixes.all ts fs i) a' i := by
-  have hkind := reachEq_kind h
+  have hkind := touchEqW_kind h
   cases a with
   | struct len v fs =>
-    obtain ⟨len', v', fs', rfl, hl, hv, hfs⟩ := reachEq_struct h
+    obtain ⟨len', v', fs', rfl, _⟩ := touchEqW_struct h
     unfold tupleVisit
-    simp only [structItem_congr hl, readTupleFields_agree ts hS fs fs' i hfs]
+    simp only
+    exact struct_row h (fun fs => do pure (DVal.seq (DVals.ofList (← readTupleFields Fixes.all ts fs i)))) (fun hc => by
+      rw [hp] at hc
+      simp only [readTupleFields_agree ts hS fs fs' i hc])
   | _ => cases a' <;> simp [kind] at hkind <;> (unfold tupleVisit; rfl)
 
 theorem agreeP_tuple {ts : Targets} (hS : AllT AgreeP ts) : AgreeP (.tuple ts) := fun a a' i h => by
-  unfold readAs; exact tupleVisit_agree hS h
+  rw [touchEq_plain (by simp [peelTarget]) rfl] at h
+  unfold readAs; exact tupleVisit_agree hS (fun _ _ _ => rfl) h
 
 theorem agreeP_tupleStruct {ts : Targets} (hS : AllT AgreeP ts) : AgreeP (.tupleStruct ts) := fun a a' i h => by
-  unfold readAs; exact tupleVisit_agree hS h
+  rw [touchEq_plain (by simp [peelTarget]) rfl] at h
+  unfold readAs; exact tupleVisit_agree hS (fun _ _ _ => rfl) h
 
 /-! ### maps -/
 
-theorem mapM_fields_agree {k v : Target} (hV : AgreeP v) (i : Nat) : ∀ (fs fs' : ArrFields), reachFields fs fs' i = true →
+theorem mapM_fields_agree {k v : Target} (hV : AgreeP v) (i : Nat) : ∀ (fs fs' : ArrFields), allEq v fs fs' i = true →
     fs.toList.mapM (fun (p : FieldMeta × Arr) => do
         let kk ← strDeAs k p.1.name
         let vv ← readAs Fixes.all v p.2 i
@@ -151,39 +221,49 @@ theorem mapM_fields_agree {k v : Target} (hV : AgreeP v) (i : Nat) : ∀ (fs fs'
         let kk ← strDeAs k p.1.name
         let vv ← readAs Fixes.all v p.2 i
         pure (kk, vv))
-  | .nil, fs', h => by
-    unfold reachFields at h
-    split at h
-    · rfl
-    · cases h
+  | .nil, fs', h => by cases allEq_nil h; rfl
   | .cons fm a r, fs', h => by
-    unfold reachFields at h
-    split at h
-    · rename_i fm' a' r'
-      simp only [Bool.and_eq_true, decide_eq_true_eq] at h
-      simp only [ArrFields.toList, List.mapM_cons, h.1.1, hV a a' i h.1.2, mapM_fields_agree hV i r r' h.2]
-    · cases h
+    obtain ⟨fm', a', r', rfl, hn, ha, hr⟩ := allEq_cons h
+    simp only [ArrFields.toList, List.mapM_cons, hn, hV a a' i ha, mapM_fields_agree hV i r r' hr]
 
 theorem agreeP_map {k v : Target} (hK : AgreeP k) (hV : AgreeP v) : AgreeP (.map k v) := fun a a' i h => by
-  have hkind := reachEq_kind h
+  rw [touchEq_plain (by simp [peelTarget]) rfl] at h
+  have hkind := touchEqW_kind h
   cases a with
   | struct len vl fs =>
-    obtain ⟨len', v', fs', rfl, hl, hv, hfs⟩ := reachEq_struct h
+    obtain ⟨len', v', fs', rfl, _⟩ := touchEqW_struct h
     unfold readAs
-    simp only [structItem_congr hl]
-    have := mapM_fields_agree (k := k) hV i fs fs' hfs
-    simp only [bind, Except.bind] at this ⊢
-    rw [this]
+    simp only
+    exact struct_row h (fun fs => do
+        let es ← fs.toList.mapM fun (fm, child) => do
+          let kk ← strDeAs k fm.name
+          let vv ← readAs Fixes.all v child i
+          pure (kk, vv)
+        pure (DVal.map (DEntries.ofList es))) (fun hc => by
+      have hc' : allEq v fs fs' i = true := hc
+      have := mapM_fields_agree (k := k) hV i fs fs' hc'
+      simp only [bind, Except.bind] at this ⊢
+      rw [this])
   | map vl offs mm ks vs =>
-    obtain ⟨v', offs', mm', ks', vs', rfl, hv, h0, h1, hks, hvs⟩ := reachEq_map h
+    obtain ⟨v', offs', mm', ks', vs', rfl, hl, _, hc⟩ := touchEqW_map h
+    have hlr := listRange_congr hl (fun hi =>
+      ⟨(hc hi (fun h => nomatch h) k v rfl).1, (hc hi (fun h => nomatch h) k v rfl).2.1⟩)
     unfold readAs
-    simp only [listRange_congr h0 h1]
+    simp only [hlr]
     cases hr : listRange Fixes.all offs' i with
     | error e => rfl
     | ok r =>
       obtain ⟨s, e⟩ := r
-      have hor := listRange_offRange ((listRange_congr h0 h1).trans hr)
-      simp only [hor] at hks hvs
+      obtain ⟨hi, hs, he⟩ := listRange_parts (hlr.trans hr)
+      obtain ⟨hks, hvs⟩ := (hc hi (fun h => nomatch h) k v rfl).2.2 s e hs he
+      have hk : ∀ j, j < e - s → readAs Fixes.all k ks (s + j) = readAs Fixes.all k ks' (s + j) := by
+        rcases hks with rfl | hall
+        · intro j _; rfl
+        · intro j hj; exact hK ks ks' (s + j) (hall j hj)
+      have hv : ∀ j, j < e - s → readAs Fixes.all v vs (s + j) = readAs Fixes.all v vs' (s + j) := by
+        rcases hvs with rfl | hall
+        · intro j _; rfl
+        · intro j hj; exact hV vs vs' (s + j) (hall j hj)
       have hrr : readRange (fun j => do
             let kk ← readAs Fixes.all k ks j
             let vv ← readAs Fixes.all v vs j
@@ -193,57 +273,100 @@ theorem agreeP_map {k v : Target} (hK : AgreeP k) (hV : AgreeP v) : AgreeP (.map
             let vv ← readAs Fixes.all v vs' j
             pure (kk, vv)) s (e - s) := by
         refine readRange_congr _ _ (fun j hj => ?_)
-        simp only [hK ks ks' (s + j) (hks j hj), hV vs vs' (s + j) (hvs j hj)]
+        simp only [hk j hj, hv j hj]
       simp only [bind, Except.bind] at hrr ⊢
       rw [hrr]
   | _ => cases a' <;> simp [kind] at hkind <;> (unfold readAs; rfl)
 
 /-! ### structs by field name -/
 
-theorem readFieldAs_agree : ∀ (tfs : TFields), AllF AgreeP tfs → ∀ (pos : Nat) (slots : Slots) (name : String) (c c' : Arr)
-    (i : Nat), reachEq c c' i = true →
+theorem allF_named {P : Target → Prop} : ∀ (tfs : TFields), AllF P tfs → ∀ (name : String) (tt : Target),
+    tfieldNamed tfs name = some tt → P tt
+  | .nil, _, _, _, h => by simp [tfieldNamed] at h
+  | .cons n t rest, hS, name, tt, h => by
+    unfold tfieldNamed at h
+    split at h
+    · cases h; exact hS.1
+    · exact allF_named rest hS.2 name tt h
+
+theorem readFieldAs_congr : ∀ (tfs : TFields) (pos : Nat) (slots : Slots) (name : String) (c c' : Arr) (i : Nat),
+    (∀ tt, tfieldNamed tfs name = some tt → readAs Fixes.all tt c i = readAs Fixes.all tt c' i) →
     readFieldAs Fixes.all tfs pos slots name c i = readFieldAs Fixes.all tfs pos slots name c' i
-  | .nil, _, _, _, _, _, _, _, _ => by unfold readFieldAs; rfl
-  | .cons n t rest, hS, pos, slots, name, c, c', i, h => by
+  | .nil, _, _, _, _, _, _, _ => by unfold readFieldAs; rfl
+  | .cons n t rest, pos, slots, name, c, c', i, h => by
     unfold readFieldAs
-    simp only [hS.1 c c' i h, readFieldAs_agree rest hS.2 (pos + 1) slots name c c' i h]
+    by_cases hn : (n == name) = true
+    · have := h t (by simp [tfieldNamed, hn])
+      simp only [hn, if_true, this]
+    · simp only [hn]
+      exact readFieldAs_congr rest (pos + 1) slots name c c' i (fun tt htt => h tt (by simp [tfieldNamed, hn, htt]))
 
-theorem foldlM_fields_agree {i : Nat} {step : Slots → FieldMeta × Arr → R Slots}
-    (hstep : ∀ slots fm fm' c c', fm.name = fm'.name → reachEq c c' i = true → step slots (fm, c) = step slots (fm', c')) :
-    ∀ (fs fs' : ArrFields) (slots : Slots), reachFields fs fs' i = true →
+/-- `next_key` finds no target field only when the target has none of that name -/
+theorem readFieldAs_none : ∀ (tfs : TFields) (pos : Nat) (slots : Slots) (name : String) (c : Arr) (i : Nat),
+    readFieldAs Fixes.all tfs pos slots name c i = .ok none → tfieldNamed tfs name = none
+  | .nil, _, _, _, _, _, _ => by simp [tfieldNamed]
+  | .cons n t rest, pos, slots, name, c, i, h => by
+    unfold readFieldAs at h
+    unfold tfieldNamed
+    split at h
+    · split at h
+      · cases h
+      · obtain ⟨x, _, h⟩ := ok_bind_inv h
+        cases h
+    · rename_i hn
+      simp only [hn]
+      exact readFieldAs_none rest (pos + 1) slots name c i h
+
+theorem foldlM_fields_agree {tfs : TFields} {i : Nat} {step : Slots → FieldMeta × Arr → R Slots}
+    (hstep : ∀ slots fm fm' c c', fm.name = fm'.name →
+      (∀ tt, tfieldNamed tfs fm.name = some tt → touchEq tt c c' i = true) →
+      (tfieldNamed tfs fm.name = none → touchEqW true .any c c' i = true) → step slots (fm, c) = step slots (fm', c')) :
+    ∀ (fs fs' : ArrFields) (slots : Slots), namedEq tfs fs fs' i = true →
       fs.toList.foldlM step slots = fs'.toList.foldlM step slots
-  | .nil, fs', _, h => by
-    unfold reachFields at h
-    split at h
-    · rfl
-    · cases h
+  | .nil, fs', _, h => by cases namedEq_nil h; rfl
   | .cons fm a r, fs', slots, h => by
-    unfold reachFields at h
-    split at h
-    · rename_i fm' a' r'
-      simp only [Bool.and_eq_true, decide_eq_true_eq] at h
-      simp only [ArrFields.toList, List.foldlM_cons, hstep slots fm fm' a a' h.1.1 h.1.2]
-      cases step slots (fm', a') with
-      | error e => rfl
-      | ok s1 => exact foldlM_fields_agree hstep r r' s1 h.2
-    · cases h
+    obtain ⟨fm', a', r', rfl, hn, h1, h2, hr⟩ := namedEq_cons h
+    simp only [ArrFields.toList, List.foldlM_cons, hstep slots fm fm' a a' hn h1 h2]
+    cases step slots (fm', a') with
+    | error e => rfl
+    | ok s1 => exact foldlM_fields_agree hstep r r' s1 hr
 
-theorem structVisit_agree {tfs : TFields} (hS : AllF AgreeP tfs) {a a' : Arr} {i : Nat} (h : reachEq a a' i = true) :
+theorem structVisit_agree {tfs : TFields} (hS : AllF AgreeP tfs) {p : Target}
+    (hp : ∀ fs fs' i, structContent p fs fs' i = namedEq tfs fs fs' i) {a a' : Arr} {i : Nat}
+    (h : touchEqW false p a a' i = true) :
     structVisit Fixes.all (fun slots name child => readFieldAs Fixes.all tfs 0 slots name child i) tfs a i =
       structVisit Fixes.all (fun slots name child => readFieldAs Fixes.all tfs 0 slots name child i) tfs a' i := by
-  have hkind := reachEq_kind h
+  have hkind := touchEqW_kind h
   cases a with
   | struct len v fs =>
-    obtain ⟨len', v', fs', rfl, hl, hv, hfs⟩ := reachEq_struct h
+    obtain ⟨len', v', fs', rfl, _⟩ := touchEqW_struct h
     unfold structVisit
-    simp only [structItem_congr hl]
-    rw [foldlM_fields_agree (i := i) ?_ fs fs' [] hfs]
-    intro slots fm fm' c c' hn hc
-    simp only [hn, readFieldAs_agree tfs hS 0 slots fm'.name c c' i hc, readAny_agree hc]
+    simp only
+    refine struct_row h (fun fs => do
+        let slots ← fs.toList.foldlM (fun (slots : Slots) (fm, child) => do
+          match (← readFieldAs Fixes.all tfs 0 slots fm.name child i) with
+          | some kv => pure (slots ++ [kv])
+          | none => do let _ ← readAny Fixes.all child i; pure slots) []
+        pure (DVal.map (DEntries.ofList (← finishFields tfs 0 slots)))) (fun hc => ?_)
+    rw [hp] at hc
+    rw [foldlM_fields_agree (tfs := tfs) (i := i) ?_ fs fs' [] hc]
+    intro slots fm fm' c c' hn h1 h2
+    have hrf : readFieldAs Fixes.all tfs 0 slots fm.name c i = readFieldAs Fixes.all tfs 0 slots fm.name c' i :=
+      readFieldAs_congr tfs 0 slots fm.name c c' i (fun tt htt => allF_named tfs hS fm.name tt htt c c' i (h1 tt htt))
+    simp only [← hn, hrf]
+    cases hr : readFieldAs Fixes.all tfs 0 slots fm.name c' i with
+    | error e => rfl
+    | ok r =>
+      cases r with
+      | some kv => rfl
+      | none =>
+        have hnone := readFieldAs_none tfs 0 slots fm.name c' i hr
+        simp only [bind, Except.bind, readAny_agree (p := .any) rfl (h2 hnone)]
   | _ => cases a' <;> simp [kind] at hkind <;> (unfold structVisit; rfl)
 
 theorem agreeP_struct {tfs : TFields} (hS : AllF AgreeP tfs) : AgreeP (.struct tfs) := fun a a' i h => by
-  unfold readAs; exact structVisit_agree hS h
+  rw [touchEq_plain (by simp [peelTarget]) rfl] at h
+  unfold readAs; exact structVisit_agree hS (fun _ _ _ => rfl) h
 
 /-! ### enums -/
 
@@ -251,45 +374,71 @@ theorem kagree_unit : KAgree .unit := fun c c' off h => by unfold readKind; rw [
 theorem kagree_newtype {t : Target} (hS : AgreeP t) : KAgree (.newtype t) := fun c c' off h => by
   unfold readKind; exact hS c c' off h
 theorem kagree_tuple {ts : Targets} (hS : AllT AgreeP ts) : KAgree (.tuple ts) := fun c c' off h => by
-  unfold readKind; exact tupleVisit_agree hS h
+  have h' : touchEq (.tuple ts) c c' off = true := h
+  rw [touchEq_plain (by simp [peelTarget]) rfl] at h'
+  unfold readKind; exact tupleVisit_agree hS (fun _ _ _ => rfl) h'
 theorem kagree_struct {tfs : TFields} (hS : AllF AgreeP tfs) : KAgree (.struct tfs) := fun c c' off h => by
-  unfold readKind; exact structVisit_agree hS h
+  have h' : touchEq (.struct tfs) c c' off = true := h
+  rw [touchEq_plain (by simp [peelTarget]) rfl] at h'
+  unfold readKind; exact structVisit_agree hS (fun _ _ _ => rfl) h'
 
 theorem readVariantAs_agree : ∀ (vs : TVariants), AllV KAgree vs → ∀ (sel : Option Nat) (name : String) (c c' : Arr)
-    (off : Nat), reachEq c c' off = true →
+    (off : Nat), (∀ k, lookupVariant vs sel name = some k → touchEq (vkTarget k) c c' off = true) →
     readVariantAs Fixes.all vs sel name (some (c, off)) = readVariantAs Fixes.all vs sel name (some (c', off))
   | .nil, _, _, _, _, _, _, _ => by unfold readVariantAs; rfl
   | .cons n k rest, hS, sel, name, c, c', off, h => by
     unfold readVariantAs
-    simp only [hS.1 c c' off h, readVariantAs_agree rest hS.2 (sel.map (· - 1)) name c c' off h]
+    cases sel with
+    | none =>
+      simp only [Option.map_none]
+      by_cases hc : (n == name) = true
+      · have := hS.1 c c' off (h k (by simp [lookupVariant, variantNamed, hc]))
+        simp only [hc, if_true, this]
+      · simp only [hc]
+        exact readVariantAs_agree rest hS.2 none name c c' off (fun k' hk' => h k' (by
+          simp only [Bool.not_eq_true] at hc
+          simpa [lookupVariant, variantNamed, hc] using hk'))
+    | some p =>
+      simp only [Option.map_some, beq_iff_eq]
+      by_cases hc : p = 0
+      · subst hc
+        have := hS.1 c c' off (h k (by simp [lookupVariant, variantNth]))
+        simp only [if_true, this]
+      · simp only [hc, if_false]
+        exact readVariantAs_agree rest hS.2 (some (p - 1)) name c c' off (fun k' hk' => h k' (by
+          cases p with
+          | zero => exact absurd rfl hc
+          | succ p => simpa [lookupVariant, variantNth] using hk'))
 
-theorem nth_agree : ∀ (fs fs' : ArrUFields) (k j : Nat), reachVariant fs fs' k j = true → fs.length = fs'.length →
+theorem variantTarget?_enum {byIndex : Bool} {vs : TVariants} {pos : Nat} {name : String} {k : VKind}
+    (h : lookupVariant vs (if byIndex then some pos else none) name = some k) :
+    variantTarget? (.enum byIndex vs) pos name = some (vkTarget k) := by
+  cases byIndex <;> simp only [lookupVariant, Bool.false_eq_true, if_false, if_true] at h <;>
+    simp only [variantTarget?, Bool.false_eq_true, if_false, if_true, h] <;> cases k <;> rfl
+
+theorem nth_agree {vt : String → Option Target} : ∀ (fs fs' : ArrUFields) (k j : Nat), variantEq vt fs fs' k j = true →
+    fs.length = fs'.length →
     (ArrUFields.nth fs k = none ∧ ArrUFields.nth fs' k = none) ∨
     ∃ fm c fm' c', ArrUFields.nth fs k = some (fm, c) ∧ ArrUFields.nth fs' k = some (fm', c') ∧ fm.name = fm'.name ∧
-      reachEq c c' j = true
+      ∀ t, vt fm.name = some t → touchEq t c c' j = true
   | .nil, fs', _, _, _, hl => by
     cases fs' with
     | nil => exact Or.inl ⟨rfl, rfl⟩
     | cons _ _ _ _ => simp [ArrUFields.length] at hl
   | .cons _ fm a _, fs', 0, j, h, hl => by
-    unfold reachVariant at h
-    split at h
-    · simp only [Bool.and_eq_true, decide_eq_true_eq] at h
-      exact Or.inr ⟨_, _, _, _, rfl, rfl, h.1, h.2⟩
-    · cases h
+    obtain ⟨tid', fm', a', r', rfl, hn, ha⟩ := variantEq_zero h
+    exact Or.inr ⟨_, _, _, _, rfl, rfl, hn, ha⟩
   | .cons _ _ _ r, fs', k + 1, j, h, hl => by
-    unfold reachVariant at h
-    split at h
-    · rename_i r'
-      simp only [ArrUFields.nth]
-      exact nth_agree r r' k j h (by simp [ArrUFields.length] at hl; exact hl)
-    · cases h
+    obtain ⟨tid', fm', a', r', rfl, hr⟩ := variantEq_succ h
+    simp only [ArrUFields.nth]
+    exact nth_agree r r' k j hr (by simp [ArrUFields.length] at hl; exact hl)
 
 theorem agreeP_enum {byIndex : Bool} {vs : TVariants} (hS : AllV KAgree vs) : AgreeP (.enum byIndex vs) := fun a a' i h => by
-  have hkind := reachEq_kind h
+  rw [touchEq_plain (by simp [peelTarget]) rfl] at h
+  have hkind := touchEqW_kind h
   cases a with
   | union types offs fs =>
-    obtain ⟨types', offs', fs', rfl, hh, hlen, hvar⟩ := reachEq_union h
+    obtain ⟨types', offs', fs', rfl, hh, hlen, hvar⟩ := touchEqW_union h
     unfold readAs
     simp only [unionSelect_congr hh, hlen]
     cases hr : unionSelect Fixes.all types' offs' fs'.length i with
@@ -303,7 +452,8 @@ theorem agreeP_enum {byIndex : Bool} {vs : TVariants} (hS : AllV KAgree vs) : Ag
       simp only [bind, Except.bind]
       rcases nth_agree fs fs' k off hv hlen with ⟨hn, hn'⟩ | ⟨fm, c, fm', c', hn, hn', hname, hc⟩
       · simp only [hn, hn']
-      · simp only [hn, hn', hname, readVariantAs_agree vs hS _ fm'.name c c' off hc]
+      · simp only [hn, hn', ← hname]
+        exact readVariantAs_agree vs hS _ fm.name c c' off (fun kk hkk => hc _ (variantTarget?_enum hkk))
   | _ => cases a' <;> simp [kind] at hkind <;> (unfold readAs; simp only [stringElem_agree h])
 
 end SaModel.Props.C17
